@@ -90,6 +90,78 @@ theorem no_lookahead_logs (log₁ log₂ : List Version) (h₁ : Ordered log₁)
   rw [r1, r2]
   simp only [specRead, hT]
 
+/-- **idempotence**: merging (again) a version whose values are the values the store shows as of that version's
+    stamp - NaN entries allowed, they never override - leaves every as-of read and every first read unchanged.
+    This covers re-merging the version merged last, and every earlier version that no later version sharing
+    its stamp has overridden (for an overridden one the clause is false of the code, see docs/notes/C17.md). -/
+theorem merge_idem (log : List Version) (h : Ordered log) (st : Store) (hst : history log = some st) (w : Version)
+    (hvis : ∀ p ∈ w.ts, ∃ y, (p.1, y) ∈ biRead st (some w.stamp) (-1) ∧ (p.2 = Option.none ∨ p.2 = y))
+    (T : Option Int) :
+    biRead (biMerge (some st) (Bi w.ts w.stamp)) T (-1) = biRead st T (-1) ∧
+    biRead (biMerge (some st) (Bi w.ts w.stamp)) T 0 = biRead st T 0 := by
+  obtain ⟨st', hst', hg, _, _⟩ := history_inv log h.ne h.wf h.stamps
+  rw [hst] at hst'; cases hst'
+  have he := remerge_specEq st hg w hvis
+  have hg' := mergeFrames_good st (Bi w.ts w.stamp)
+  constructor
+  · show biRead (mergeFrames _) T (-1) = _
+    rw [biRead_last _ hg', biRead_last _ hg, specRows_congr he]
+  · show biRead (mergeFrames _) T 0 = _
+    rw [biRead_first _ hg', biRead_first _ hg]
+    exact firstRows_congr he (fun d => (hg' d).1.le) (fun d => (hg d).1.le) T
+
+/-- the version merged last is always such a version: its non-NaN values are what the store shows as of its stamp -/
+theorem last_version_visible (log : List Version) (w : Version) (h : Ordered (log ++ [w])) (st : Store)
+    (hst : history (log ++ [w]) = some st) :
+    ∀ p ∈ w.ts, ∃ y, (p.1, y) ∈ biRead st (some w.stamp) (-1) ∧ (p.2 = Option.none ∨ p.2 = y) := by
+  intro p hp
+  obtain ⟨st', hst', hr⟩ := read_spec _ h (some w.stamp)
+  rw [hst] at hst'; cases hst'
+  rw [hr, specRead_eq]
+  have hrow : (⟨p.1, w.stamp, p.2⟩ : Row) ∈ group p.1 (logRows (log ++ [w])) := by
+    rw [mem_group]
+    refine ⟨?_, rfl⟩
+    rw [logRows_append, logRows_single]
+    exact List.mem_append_right _ (by simp only [Bi, List.mem_map]; exact ⟨p, hp, rfl⟩)
+  refine ⟨lastVal ((group p.1 (logRows (log ++ [w]))).filter (vis (some w.stamp))), ?_, ?_⟩
+  · simp only [specRows, List.mem_map, Prod.mk.injEq]
+    refine ⟨p.1, ?_, rfl, rfl⟩
+    rw [mem_dates]
+    exact ⟨⟨p.1, w.stamp, p.2⟩, List.mem_filter.mpr ⟨(mem_group.mp hrow).1, by simp [vis]⟩, rfl⟩
+  · -- the rows of `w` for this date close the visible log column; fold them last
+    have hall : (group p.1 (logRows (log ++ [w]))).filter (vis (some w.stamp)) = group p.1 (logRows (log ++ [w])) := by
+      rw [List.filter_eq_self]
+      intro r hr
+      have hsorted := logRows_sorted _ h.stamps
+      rw [logRows_append, logRows_single] at hsorted hr
+      have hr' := (mem_group.mp hr).1
+      simp only [vis, decide_eq_true_eq]
+      rcases List.mem_append.mp hr' with h1 | h1
+      · exact (List.pairwise_append.mp hsorted).2.2 r h1 ⟨p.1, w.stamp, p.2⟩ (by simp only [Bi, List.mem_map]; exact ⟨p, hp, rfl⟩)
+      · simp only [Bi, List.mem_map] at h1; obtain ⟨_, _, rfl⟩ := h1; exact Int.le_refl _
+    rw [hall, logRows_append, logRows_single, group_append]
+    have hsingle : group p.1 (Bi w.ts w.stamp) = [⟨p.1, w.stamp, p.2⟩] := by
+      have hgd := (good_Bi w.ts w.stamp (h.wf w (by simp)) p.1).1
+      have hm : (⟨p.1, w.stamp, p.2⟩ : Row) ∈ group p.1 (Bi w.ts w.stamp) :=
+        mem_group.mpr ⟨by simp only [Bi, List.mem_map]; exact ⟨p, hp, rfl⟩, rfl⟩
+      match hgrp : group p.1 (Bi w.ts w.stamp), hgd, hm with
+      | [], _, hm => simp at hm
+      | [a], _, hm => simp only [List.mem_singleton] at hm; rw [hm]
+      | a :: b :: rest, hgd, _ =>
+        exfalso
+        have hab := List.rel_of_pairwise_cons hgd (List.mem_cons_self (a := b) (l := rest))
+        have ha : a ∈ group p.1 (Bi w.ts w.stamp) := by rw [hgrp]; simp
+        have hb : b ∈ group p.1 (Bi w.ts w.stamp) := by rw [hgrp]; simp
+        have e1 : a.stamp = w.stamp := by
+          have := (mem_group.mp ha).1; simp only [Bi, List.mem_map] at this; obtain ⟨_, _, rfl⟩ := this; rfl
+        have e2 : b.stamp = w.stamp := by
+          have := (mem_group.mp hb).1; simp only [Bi, List.mem_map] at this; obtain ⟨_, _, rfl⟩ := this; rfl
+        omega
+    rw [hsingle, lastVal_snoc]
+    cases hv : p.2 with
+    | none => exact Or.inl rfl
+    | some x => right; simp [hv]
+
 /-- the store never holds anything that was not published -/
 theorem store_rows_published (log : List Version) (h : Ordered log) (st : Store) (hst : history log = some st)
     (r : Row) (hr : r ∈ st) : ∃ v ∈ log, r.stamp = v.stamp ∧ (r.date, r.val) ∈ v.ts := by
@@ -110,5 +182,28 @@ theorem lastVal_override (rows : Store) (r : Row) (x : Int) (h : r.val = some x)
 
 theorem lastVal_nan_keeps (rows : Store) (r : Row) (h : r.val = Option.none) :
     lastVal (rows ++ [r]) = lastVal rows := by rw [lastVal_snoc, h]; rfl
+
+/-! ### evaluation tests (`List.mergeSort` does not reduce in the kernel, so these are `#guard`s):
+    the hypotheses of the theorems above are met by non-trivial histories and the conclusions are not vacuous -/
+
+/-- same-stamp override, NaN that must not override, a revert, a date that appears late -/
+def demo : List Version :=
+  [⟨10, [(1, some 5), (2, none), (3, some 1)]⟩, ⟨10, [(1, some 6), (2, none)]⟩,
+   ⟨12, [(1, none), (2, some 7), (3, some 2), (4, none)]⟩, ⟨12, [(3, some 1)]⟩]
+
+#guard (history demo).map (fun st => biRead st (some 9) (-1)) == some []
+#guard (history demo).map (fun st => biRead st (some 10) (-1)) == some [(1, some 6), (2, none), (3, some 1)]
+#guard (history demo).map (fun st => biRead st (some 11) (-1)) == some (specRead demo (some 11))
+#guard (history demo).map (fun st => biRead st Option.none (-1)) == some [(1, some 6), (2, some 7), (3, some 1), (4, none)]
+#guard (history demo).map (fun st => biRead st Option.none 0) == some [(1, some 6), (2, none), (3, some 1), (4, none)]
+#guard (history demo).map (fun st => biRead st Option.none 0) == some (specFirst demo Option.none)
+-- the hypothesis of `merge_idem` holds for the last version and for the (not overridden) second one ...
+#guard (history demo).map (fun st => [demo[3]!, demo[1]!].all fun w => w.ts.all fun p =>
+    (biRead st (some w.stamp) (-1)).any fun q => q.1 == p.1 && (p.2 == Option.none || p.2 == q.2)) == some true
+-- ... and fails for the first version, which the second one (same stamp) has overridden: re-merging it changes a read
+#guard (history demo).map (fun st => demo[0]!.ts.all fun p =>
+    (biRead st (some 10) (-1)).any fun q => q.1 == p.1 && (p.2 == Option.none || p.2 == q.2)) == some false
+#guard (history demo).map (fun st => biRead (biMerge (some st) (Bi demo[0]!.ts 10)) (some 10) (-1)) ==
+    some [(1, some 5), (2, none), (3, some 1)]
 
 end Pyg.Props.C17
